@@ -49,12 +49,15 @@ class SeriesSym(P.PolySym):
                 and "abs" not in sexp(n0):     # |norm - 1| vs eps is a validity / renormalisation test, not a magnitude switch
             a = S.scalarize(P.PolySym.ev(self, n0["ch"][0], env))
             b = S.scalarize(P.PolySym.ev(self, n0["ch"][1], env))
-            eps = S.Aff(S.Fraction(100, 2 ** 52))
             def symbolic(x):
                 return isinstance(x, J.JetNum) and not x.is_const()
-            if isinstance(b, S.Aff) and b == eps and symbolic(a):
+            def threshold(x):      # a small positive constant (eps, eps_sqrt, a literal): a precision switch
+                return isinstance(x, S.Aff) and x.is_const() and 0 < x.c <= S.Fraction(1, 100)
+            def vanishing(x):
+                return symbolic(x) and x.vz() >= 1
+            if threshold(b) and vanishing(a):
                 return n0["op"] in (">", ">=")       # closed-form world: the rotation magnitude is above the threshold
-            if isinstance(a, S.Aff) and a == eps and symbolic(b):
+            if threshold(a) and vanishing(b):
                 return n0["op"] in ("<", "<=")
             if isinstance(a, (S.Aff, S.Poly)) and isinstance(b, (S.Aff, S.Poly)) and (symbolic(a) or symbolic(b)):
                 # sign conditions on symbolic data (cos_angle < 0): decided by the value at the identity when it is non-zero
@@ -165,7 +168,8 @@ def mat_jets(m):
 
 
 def analyse(rep, prop, v, what, order_exp=5, order_jac=4):
-    """what: subset of {'exp','log','rjac','ljac','rjacinv','ljacinv'}"""
+    """what: subset of {'exp','log','expjac','logjac','adjexp','rjac','ljac','rjacinv','ljacinv'}"""
+    what = set(what)
     tcls, gcls, dof, rep_n = TAN[v]
     F = FX.get(v)
     TT = RT.extract(F, v)
@@ -219,12 +223,51 @@ def analyse(rep, prop, v, what, order_exp=5, order_jac=4):
                         "R-SERIES." + name, "%s(%d,%d)" % (name, r, c),
                         "the Taylor jet (through order %d in the tangent) of the closed form of %s at (%d,%d) differs from the defining series: %s" % (order, name, r, c, bad), f))
 
-        if "exp" in what or "log" in what:
+        def ad_series(coef):
+            out, P_ = sp.zeros(dof, dof), sp.eye(dof)
+            for kk in range(order_jac + 1):
+                out = out + coef(kk) * P_
+                P_ = (P_ * AD).applyfunc(sp.expand)
+            return out
+        # Jl = sum ad^k/(k+1)!,  Jr = sum (-ad)^k/(k+1)!,  Jl^-1 = sum B_k ad^k/k!,  Jr^-1 = sum B_k (-ad)^k/k!   (B_1 = -1/2)
+        bern = lambda kk: sp.bernoulli(kk) * (-1 if kk == 1 and sp.bernoulli(1) > 0 else 1)
+        series = {"rjac": lambda: ad_series(lambda kk: sp.Integer(-1) ** kk / sp.factorial(kk + 1)),
+                  "ljac": lambda: ad_series(lambda kk: sp.Integer(1) / sp.factorial(kk + 1)),
+                  "rjacinv": lambda: ad_series(lambda kk: sp.Integer(-1) ** kk * bern(kk) / sp.factorial(kk)),
+                  "ljacinv": lambda: ad_series(lambda kk: bern(kk) / sp.factorial(kk))}
+
+        if what & {"exp", "log", "expjac", "logjac", "adjexp"}:
             f_exp = find(F, tcls + "Base", "exp", own_t)
             f_T = find(F, gcls + "Base", "transform", own_g)
             if f_exp is None or f_T is None:
                 raise C.AnalysisBroken("anchor vanished: exp / transform of %s" % v)
-            X = ev(f_exp, t, [None], "exp")
+            if "expjac" in what:
+                Je = S.Mat(dof, dof)
+                X = ev(f_exp, t, [S.View(Je, 0, 0, dof, dof)], "exp(J)")
+                got = mat_jets(Je)
+                if got is None:
+                    raise C.AnalysisBroken("R-SERIES: the Jacobian written by exp of %s has an unwritten / non-symbolic cell" % v)
+                compare("expjac", got, series["rjac"](), order_jac, f_exp)
+            else:
+                X = ev(f_exp, t, [None], "exp")
+            if "adjexp" in what:
+                f_adj = find(F, gcls + "Base", "adj", own_g)
+                if f_adj is None:
+                    raise C.AnalysisBroken("anchor vanished: adj of %s" % v)
+                got = mat_jets(S.as_mat(ev(f_adj, X, [], "adj(exp)")))
+                if got is None:
+                    raise C.AnalysisBroken("R-SERIES: adj(exp(t)) of %s has a non-symbolic cell" % v)
+                compare("adjexp", got, ad_series(lambda kk: sp.Integer(1) / sp.factorial(kk)), order_jac, f_adj)
+            if "logjac" in what:
+                f_log = find(F, gcls + "Base", "log", own_g)
+                if f_log is None:
+                    raise C.AnalysisBroken("anchor vanished: log of %s" % v)
+                Jl_ = S.Mat(dof, dof)
+                ev(f_log, X, [S.View(Jl_, 0, 0, dof, dof)], "log(exp, J)")
+                got = mat_jets(Jl_)
+                if got is None:
+                    raise C.AnalysisBroken("R-SERIES: the Jacobian written by log of %s has an unwritten / non-symbolic cell" % v)
+                compare("logjac", got, series["rjacinv"](), order_jac, f_log)
             if "exp" in what:
                 TX = mat_jets(S.as_mat(ev(f_T, X, [], "transform(exp)")))
                 if TX is None:
@@ -249,21 +292,10 @@ def analyse(rep, prop, v, what, order_exp=5, order_jac=4):
                 if got is None:
                     raise C.AnalysisBroken("R-SERIES: log(exp(t)) of %s has a non-symbolic cell" % v)
                 compare("log", got, sp.Matrix(cs), order_exp, f_log)
-        def ad_series(coef):
-            out, P_ = sp.zeros(dof, dof), sp.eye(dof)
-            for kk in range(order_jac + 1):
-                out = out + coef(kk) * P_
-                P_ = (P_ * AD).applyfunc(sp.expand)
-            return out
-        # Jl = sum ad^k/(k+1)!,  Jr = sum (-ad)^k/(k+1)!,  Jl^-1 = sum B_k ad^k/k!,  Jr^-1 = sum B_k (-ad)^k/k!   (B_1 = -1/2)
-        bern = lambda kk: sp.bernoulli(kk) * (-1 if kk == 1 and sp.bernoulli(1) > 0 else 1)
-        series = {"rjac": ad_series(lambda kk: sp.Integer(-1) ** kk / sp.factorial(kk + 1)),
-                  "ljac": ad_series(lambda kk: sp.Integer(1) / sp.factorial(kk + 1)),
-                  "rjacinv": ad_series(lambda kk: sp.Integer(-1) ** kk * bern(kk) / sp.factorial(kk)),
-                  "ljacinv": ad_series(lambda kk: bern(kk) / sp.factorial(kk))}
-        for name, want in series.items():
+        for name, mk in series.items():
             if name not in what:
                 continue
+            want = mk()
             f = find(F, tcls + "Base", name, own_t)
             if f is None:
                 f = find(F, "manif::TangentBase", name, own_t)
